@@ -36,12 +36,24 @@ func tbState(tb *bitmap.TailBitmap, o0 int64) J {
 	if rec >= 0 {
 		rec = num(rec - o0)
 	}
-	st := J{"off": num(tb.Offset - o0), "nw": len(tb.Words), "ones": ones, "rec": rec}
+	st := J{"off": num(tb.Offset - o0), "nw": len(tb.Words), "ones": ones, "runs": [][]int64{}, "rec": rec}
 	if len(ones) > tbMaxOnes {
-		// No generated history stores that many 1-bits beyond Offset when words are compacted as
-		// specified; the projection is cut (and therefore rejected) instead of growing quadratically.
-		st["ones"] = ones[:tbMaxOnes]
-		st["cut"] = true
+		// thousands of stored 1-bits (a bulk fill before one big compaction): logged as runs <<first, length>>
+		runs := [][]int64{}
+		for _, x := range ones {
+			if n := len(runs); n > 0 && runs[n-1][0]+runs[n-1][1] == x {
+				runs[n-1][1]++
+			} else {
+				runs = append(runs, []int64{x, 1})
+			}
+		}
+		st["ones"], st["runs"] = []int64{}, runs
+		if len(runs) > tbMaxOnes {
+			// No generated history stores that many separate runs of 1-bits beyond Offset when words are compacted
+			// as specified; the projection is cut (and therefore rejected) instead of growing quadratically.
+			st["runs"] = runs[:tbMaxOnes]
+			st["cut"] = true
+		}
 	}
 	return st
 }
@@ -110,6 +122,15 @@ func execTB(in In, em *Emitter) {
 			idx := op.I("idx")
 			ev["idx"] = num(idx - o0)
 			abn = guard(func() { tb.Set(idx) })
+		case "SetRange": // Set(lo), Set(lo+1), ..., Set(hi-1): one event (Trace_TailBitmap!TraceSetRange)
+			lo, hi := op.I("lo"), op.I("hi")
+			ev["lo"], ev["hi"] = num(lo-o0), num(hi-o0)
+			abn = guard(func() {
+				for i := lo; i < hi; i++ {
+					tb.Set(i)
+				}
+			})
+			em.Calls(int(hi - lo - 1))
 		case "Compact":
 			abn = guard(func() { tb.Compact() })
 		case "Get":
@@ -169,6 +190,12 @@ func (t *tbGen) Set(idx int64) {
 	t.set[idx] = true
 	if idx+1 > t.hi {
 		t.hi = idx + 1
+	}
+}
+func (t *tbGen) SetRange(lo, hi int64) {
+	t.ops = append(t.ops, J{"k": "SetRange", "lo": lo, "hi": hi})
+	if hi > t.hi {
+		t.hi = hi
 	}
 }
 func (t *tbGen) Compact() { t.ops = append(t.ops, J{"k": "Compact"}) }
@@ -493,6 +520,68 @@ func genC15(g *Gen) {
 			t.probe(idx)
 			t.probe(idx + 64)
 		}
+		t.probes(6)
+		t.done()
+	}
+	// 5. one compaction that drops more than a thousand words at once (1025..3000: beyond the initial capacity
+	// and any fixed-size scratch block), after a bulk fill logged as range macro-steps; then the bitmap grows
+	// again, by one word or far beyond the empty end, and what lies between is probed.
+	bigs := []int{1025, 1030, 1100, 2047, 2048, 2050, 3000, 1024, 1023}
+	for rep := 0; rep < g.N(2, 9); rep++ {
+		o := int64(64 * r.Intn(3))
+		nwords := bigs[(rep+int(g.Seed)*2)%len(bigs)]
+		t := newTBGen(g, o)
+		hole0 := int64(r.Intn(64))
+		for b := int64(0); b < 64; b++ {
+			if b != hole0 {
+				t.Set(o + b)
+			}
+		}
+		// words 1..nwords-1 full; sometimes a partial word and a few full ones behind them
+		end := o + int64(nwords*64)
+		if r.Intn(2) == 0 {
+			mid := o + int64(64*(1+r.Intn(nwords-1)))
+			t.SetRange(mid, end)
+			t.probes(1)
+			t.SetRange(o+64, mid)
+		} else {
+			t.SetRange(o+64, end)
+		}
+		var live []int64
+		if r.Intn(2) == 0 {
+			gap := end + int64(r.Intn(64))
+			t.SetRange(end+64, end+64*int64(2+r.Intn(3)))
+			if gap > end {
+				t.SetRange(end, gap)
+			}
+			if gap+1 < end+64 {
+				t.SetRange(gap+1, end+64)
+			}
+			live = append(live, gap)
+		}
+		t.probes(2)
+		t.Set(o + hole0) // one Compact drops nwords words
+		t.probes(3)
+		// grow again
+		k := []int{nwords - 1, 0, 1, 3, 1023, 1024, 1025, nwords, 2 * nwords}[r.Intn(9)]
+		far := t.hi + int64(64*k) + int64(r.Intn(64))
+		if r.Intn(3) == 0 {
+			far = end + int64(64*k) + int64(r.Intn(64))
+		}
+		t.Set(far)
+		for w := int64(0); w <= 8; w++ {
+			t.probe(far - 64*w)
+			t.probe(far - 64*w - int64(r.Intn(64)))
+		}
+		for i := 0; i < 12; i++ {
+			t.probe(end + int64(r.Intn(int(far-end)+1)))
+		}
+		for _, idx := range live {
+			t.probe(idx)
+			t.Set(idx)
+			t.probes(2)
+		}
+		t.Compact()
 		t.probes(6)
 		t.done()
 	}
